@@ -87,7 +87,8 @@ void binary(sink& out, std::uint64_t salt)
     }
     int cid = add_inst(out, ev("Inst").str("kind", "FrCmp").str("op", "cmp").raw("lt", fdesc<T>()).raw("rt", fdesc<T>()).raw("res_t", desc<bool>()));
     int hid = add_inst(out, ev("Inst").str("kind", "FrHash").str("op", "hash").raw("lt", fdesc<T>()).raw("rt", fdesc<T>()).raw("res_t", desc<bool>()));
-    std::size_t stride = (fs.size() > 150 && !thorough()) ? fs.size() / 75 : 1;
+    // quick: ~75 x 75 operand pairs per type; thorough: the 8-bit set in full, wider types ~380 x 380 pairs
+    std::size_t stride = !thorough() ? (fs.size() > 150 ? fs.size() / 75 : 1) : (sizeof(T) == 1 || fs.size() <= 380) ? 1 : fs.size() / 380;
     for (std::size_t ia = 0; ia < fs.size(); ia += stride) {
         for (std::size_t ib = 0; ib < fs.size(); ib += (stride > 1 ? stride - 1 : 1)) {
             F const& a = fs[ia];
